@@ -21,6 +21,40 @@ pub enum Input {
     TmplMutated { group: Group, style: u64, mutations: Vec<Mutation> },
     SheetSoup(String),
     SheetMutated { seed: u16, mutations: Vec<Mutation> },
+    /// entity-like sequences (`&` + up to 5 characters of mixed classes + optional `;`) in text and attribute values
+    EntitySoup(Vec<Vec<u8>>),
+    /// one construct repeated / nested n <= 64 times (the property's depth bound): chains and nests of every bracket,
+    /// operator, element and at-rule kind
+    Ramp { shape: u8, n: u8, op: u8 },
+}
+
+pub const ENTITY_PALETTE: &[&str] = &["a", "m", "p", "Z", "q", "0", "9", "#", "x", "X", "é", "中", "😀", ";", "&", " ", "l", "t", "g", "1", "F", "\u{a0}", "-"];
+pub const RAMP_OPS: &[&str] = &["??", "+", "-", "*", "||", "&&", "|", "^", "&", "==", "===", "<", ">>>", "<<", "%", "/", " instanceof "];
+
+pub fn ramp_text(shape: u8, n: usize, op: u8) -> (char, String) {
+    let n = n.clamp(1, 64);
+    let o = RAMP_OPS[op as usize % RAMP_OPS.len()];
+    let rep = |s: &str| s.repeat(n);
+    match shape % 18 {
+        0 => ('t', format!("{}x{}", rep("<a>"), rep("</a>"))),
+        1 => ('t', format!("{{{{ {}a{} }}}}", rep("("), rep(")"))),
+        2 => ('t', format!("{{{{ {}a{} }}}}", rep("["), rep("]"))),
+        3 => ('t', format!("{{{{ {}a{} }}}}", rep("{a:"), rep("}"))),
+        4 => ('t', format!("{{{{ {}a{} }}}}", rep("a?"), rep(":a"))),
+        5 => ('t', format!("{{{{ {}a }}}}", rep(["!", "~", "- ", "+ ", "typeof ", "void "][op as usize % 6]))),
+        6 => ('t', format!("<v a=\"{{{{ a{} }}}}\"/>", rep(&format!(" {} a", o)))),
+        7 => ('t', format!("{{{{ a{} }}}}", rep(".b"))),
+        8 => ('t', format!("{{{{ a{} }}}}", rep("(a)"))),
+        9 => ('t', format!("{{{{ {}a{} }}}}", rep("a["), rep("]"))),
+        10 => ('t', format!("{}x{}", rep("<block wx:for=\"{{a}}\" wx:if=\"{{a}}\">"), rep("</block>"))),
+        11 => ('t', rep("{{a}}x")),
+        12 => ('t', format!("<template is=\"t\" data=\"{{{{ {} }}}}\"/>", rep("...a, b: a ?? b,"))),
+        13 => ('s', format!("{}.a{{}}{}", rep("@media (a){"), rep("}"))),
+        14 => ('s', format!(".a{}{{}}", format!("{}.b{}", rep(":not("), rep(")")))),
+        15 => ('s', format!(".a{{w:{}1rpx{}}}", rep("calc(1px + ("), rep("))"))),
+        16 => ('s', format!(".a{{w:calc(1rpx{})}}", rep(" + 1rpx"))),
+        _ => ('s', format!("{}{}", rep("@import 'a' layer(x) supports(a:b) screen;"), rep(":host{a:b}"))),
+    }
 }
 
 #[derive(Clone, Debug, Serialize, Deserialize)]
@@ -71,6 +105,28 @@ pub fn materialise(c: &Case) -> (char, String) {
         }
         Input::SheetSoup(s) => ('s', s.clone()),
         Input::SheetMutated { seed, mutations } => ('s', soup::apply(SHEET_SEEDS[*seed as usize % SHEET_SEEDS.len()], mutations, soup::WXSS_ALPHABET)),
+        Input::EntitySoup(items) => {
+            let mut t = String::from("<view title=\"");
+            for (i, it) in items.iter().enumerate() {
+                if i == items.len() / 2 {
+                    t.push_str("\">");
+                }
+                t.push('&');
+                for c in it {
+                    t.push_str(ENTITY_PALETTE[*c as usize % ENTITY_PALETTE.len()]);
+                }
+                if it.len() % 2 == 0 {
+                    t.push(';');
+                }
+                t.push(' ');
+            }
+            if items.len() < 2 {
+                t.push_str("\">");
+            }
+            t.push_str("</view>");
+            ('t', t)
+        }
+        Input::Ramp { shape, n, op } => ramp_text(*shape, *n as usize, *op),
     }
 }
 
@@ -163,6 +219,9 @@ fn labels_of(k: char, text: &str) -> Vec<String> {
     if text.contains("&#") || text.contains("&amp") {
         l.push("has-entity".into());
     }
+    if text.contains('&') {
+        l.push("has-ampersand".into());
+    }
     if k == 's' && text.contains('@') {
         l.push("css-at-rule".into());
     }
@@ -183,6 +242,8 @@ impl PropCheck for C01 {
             3 => (gen::wxml::group(&wc), any::<u64>(), proptest::collection::vec(soup::mutation(), 0..5)).prop_map(|(group, style, mutations)| Input::TmplMutated { group, style, mutations }),
             2 => soup::soup(soup::WXSS_ALPHABET, 120).prop_map(Input::SheetSoup),
             2 => (any::<u16>(), proptest::collection::vec(soup::mutation(), 0..6)).prop_map(|(seed, mutations)| Input::SheetMutated { seed, mutations }),
+            1 => proptest::collection::vec(proptest::collection::vec(any::<u8>(), 0..6), 1..12).prop_map(Input::EntitySoup),
+            1 => (any::<u8>(), 1u8..=64, any::<u8>()).prop_map(|(shape, n, op)| Input::Ramp { shape, n, op }),
         ];
         (input, any::<u8>(), any::<u16>(), any::<bool>()).prop_map(|(input, path, opts, dev)| Case { input, path, opts, dev }).boxed()
     }
